@@ -24,6 +24,35 @@ Theorem C14_flushed_entry_survives : forall im pos entry later,
   img_get (apply_events im (fst (file_flush true pos entry) ++ later)) (pos + N.of_nat i) = nth i entry 0.
 Proof. exact flushed_entry_survives. Qed.
 
+(* ---- write-back cache that honours flush ([cache_run]: current image, durable image) *)
+(* what survives a power cut is the image after a prefix of the log of device writes *)
+Theorem C14_durable_is_prefix_image : forall cur evs,
+  exists pre post, evs = pre ++ post /\ snd (cache_run cur cur evs) = apply_events cur pre.
+Proof. exact durable_is_prefix_image. Qed.
+
+(* when flush / drop returns, everything handed to the storage before (data, table updates, the entry) is durable *)
+Theorem C14_flush_makes_durable : forall cur dur before dirty pos entry,
+  let r := cache_run cur dur (before ++ fst (file_flush dirty pos entry)) in
+  snd r = fst r /\ fst r = apply_events cur (before ++ fst (file_flush dirty pos entry)).
+Proof. exact flush_makes_durable. Qed.
+
+(* and the flushed entry stays durable through every continuation that does not overlap it *)
+Theorem C14_flushed_entry_durable : forall cur dur before pos entry later,
+  (forall o b, In (DWrite o b) later -> o + N.of_nat (length b) <= pos \/ pos + N.of_nat (length entry) <= o) ->
+  forall i, (i < length entry)%nat ->
+  img_get (snd (cache_run cur dur (before ++ fst (file_flush true pos entry) ++ later))) (pos + N.of_nat i) = nth i entry 0.
+Proof. exact flushed_entry_durable. Qed.
+
+(* the shape matters: without the final device flush (the round-3 seeded change) the same log leaves the OLD bytes durable *)
+Example C14_no_device_flush_loses_data :
+  let im := img_write (img_empty 0) 100 [1; 1; 1; 1] in
+  snd (cache_run im im [DWrite 100 [7; 7; 7; 7]]) = im /\
+  img_get (snd (cache_run im im ([DWrite 100 [7; 7; 7; 7]] ++ fst (file_flush false 0 [])))) 100 = 7.
+Proof. vm_compute. split; reflexivity. Qed.
+
 Print Assumptions C14_write_frame.
 Print Assumptions C14_flush_shape.
 Print Assumptions C14_flushed_entry_survives.
+Print Assumptions C14_durable_is_prefix_image.
+Print Assumptions C14_flush_makes_durable.
+Print Assumptions C14_flushed_entry_durable.
